@@ -205,7 +205,7 @@ def main():
                 "boundary_identifiers_used": len(BOUNDARY_NAMES)}
 
     rc = suite.run_property(
-        "C17", cs, pre_violations=bad, rejection_is_violation=True,
+        "C17", cs, pre_violations=bad, rejection_is_violation=True, level="model_checking",
         technique="(a) PEG matching of the real grammar file encoded as SMT constraints over a symbolic identifier (z3): per naming role, search for a non-reserved identifier the role rejects; models replayed through the real parser. (b) SMT-based translation validation of renamed / re-laid-out programs",
         functions=["minimal.pest: identifier, function_name, alias_name, witness_name, builtin_type, builtin_function, builtin_alias, *_keyword, none/true/false_expr, call_name, ty, pattern, match_pattern, statement, expression (read and encoded at check time)",
                    "parse.rs / ast.rs / str.rs: names as plain keys (through the renamed programs)"],
